@@ -48,18 +48,18 @@ type Ctx struct {
 	loadInfo map[string]interface{}
 
 	// caches
-	modFns      []*ssa.Function
-	globalUsers map[*ssa.Global][]*ssa.Function
-	eff         *effects
+	modFns        []*ssa.Function
+	globalUsers   map[*ssa.Global][]*ssa.Function
+	eff           *effects
 	errGlobalMemo map[*ssa.Global]bool
 	mx            *matrix
 	sizeHull      *[2]int64
 	fieldStoreIdx map[string][]*ssa.Store
 	fieldWhole    map[string]bool
 	hullMemo      map[string]*ival
-	funcDecls map[*types.Func]*ast.FuncDecl
-	prof      *Profile
-	profErr   []string
+	funcDecls     map[*types.Func]*ast.FuncDecl
+	prof          *Profile
+	profErr       []string
 }
 
 func load(repo, tier string) (*Ctx, error) {
@@ -75,6 +75,26 @@ func loadCfg(repo, tier string, extraEnv []string, tags []string) (*Ctx, error) 
 func loadOverlay(repo, tier string, extraEnv []string, tags []string, overlay map[string][]byte) (*Ctx, error) {
 	env := append(os.Environ(), "GOFLAGS=-mod=mod", "GOPROXY=off", "GOSUMDB=off", "GOTOOLCHAIN=local", "GOWORK=off")
 	env = append(env, extraEnv...)
+	merged, ai, srcPkgs := alphaOverlay(repo, env, tags, overlay)
+	c, err := loadRaw(repo, tier, env, extraEnv, tags, merged)
+	if srcPkgs != nil {
+		if err == nil {
+			err = alphaEquivalent(srcPkgs, c.pkgs)
+		}
+		if err != nil {
+			// analyse the tree under its own names instead
+			ai.Disabled = "renaming rejected: " + err.Error()
+			c, err = loadRaw(repo, tier, env, extraEnv, tags, overlay)
+		}
+	}
+	if err != nil {
+		return nil, err
+	}
+	c.loadInfo["alpha_normalisation"] = ai
+	return c, nil
+}
+
+func loadRaw(repo, tier string, env, extraEnv []string, tags []string, overlay map[string][]byte) (*Ctx, error) {
 	cfg := &packages.Config{
 		Mode:    packages.LoadAllSyntax,
 		Dir:     repo,
